@@ -146,7 +146,7 @@ IMPL_MODULES = ["logic.logic", "logic.auto", "data.nat", "data.integer", "data.r
                 "prover.simplex", "prover.simplex_strict", "prover.sympywrapper", "prover.z3wrapper",
                 "sat.zchaff", "smt.veriT.verit_macro", "smt.veriT.la_generic"]
 
-QUICK_THEORIES = ["logic_base", "logic", "set", "nat", "function", "list", "int", "expr", "hoare"]
+QUICK_THEORIES = ["logic_base", "logic", "set", "nat", "function", "list", "int", "rat", "real", "expr", "hoare"]
 
 
 class Impl:
@@ -745,6 +745,169 @@ def obj_size(x):
     return 1
 
 
+# ------------------------------------------------------------------ correspondence: export model
+class Coder:
+    """Nat codes for terms / args / rule names of one proof term (alpha-equivalent terms share a code)."""
+
+    def __init__(self):
+        self.terms = {}
+        self.args = {}
+
+    def term(self, t):
+        return self.terms.setdefault(t, len(self.terms))
+
+    def arg(self, a):
+        k = keyof(a)
+        try:
+            hash(k)
+        except TypeError:
+            k = repr(a)
+        return self.args.setdefault(k, len(self.args))
+
+    def seq(self, th):
+        return [[self.term(h) for h in th.hyps], self.term(th.prop)]
+
+
+class TooBig(Exception):
+    pass
+
+
+def pt_wire(pt, coder, table, budget):
+    """ProofTerm tree -> PT s-expression (the DAG is unfolded, as `export` walks it)."""
+    from harness.common import sexp
+    budget[0] -= 1
+    if budget[0] < 0:
+        raise TooBig()
+    if pt.rule == "atom":
+        return ["atom", list(pt.args.id), coder.seq(pt.th)]
+    kids = [pt_wire(p, coder, table, budget) for p in pt.prevs]
+    rule = sexp.enc(pt.rule)
+    a = coder.arg(pt.args)
+    th = coder.seq(pt.th)
+    table.append([rule, a, [coder.seq(p.th) for p in pt.prevs], th])
+    return ["node", rule, a, kids, th]
+
+
+class ExportTie:
+    """Real `ProofTerm.export` + checker (all macros evaluated) against the Lean model."""
+
+    def __init__(self, ctx, impl, limit):
+        self.ctx, self.impl, self.limit = ctx, impl, limit
+        self.lines, self.expect = [], []
+        self.rng = ctx.rng("export-tie")
+        self.skipped_big = 0
+
+    def maybe_add(self, name, args, ths):
+        from harness.common import sexp
+        if len(self.expect) >= self.limit or self.rng.random() > 0.35:
+            return
+        impl = self.impl
+        P = impl.proofterm.ProofTerm
+        ItemID, Proof, ProofItem = impl.proof.ItemID, impl.proof.Proof, impl.proof.ProofItem
+        macro = impl.theory.global_macros[name]
+        n = len(ths)
+        pfx = ItemID(n)
+        try:
+            pt = macro._c04_orig[2](args, tuple(P.atom(ItemID(i), th) for i, th in enumerate(ths)))
+            if not isinstance(pt, P) or pt.rule == "atom":
+                return
+            coder, table = Coder(), []
+            wire = pt_wire(pt, coder, table, [1500])
+            real = pt.export(pfx)
+        except TooBig:
+            self.skipped_big += 1
+            return
+        except Exception:  # noqa
+            return
+        real_items = [[list(it.id.id), sexp.enc(it.rule), coder.arg(it.args), [list(p.id) for p in it.prevs], coder.seq(it.th)]
+                      for it in real.items]
+        # the real checker with every macro evaluated (the table semantics of the model)
+        prf = Proof()
+        for i, th in enumerate(ths):
+            prf.add_item(i, "sorry", th=th)
+        item = ProofItem(n, "subproof")
+        item.subproof = real
+        prf.items.append(item)
+        try:
+            th = impl.theory.check_proof(prf, check_level=1000)
+            real_check = ["ok", coder.seq(th), len(real.items)]
+        except Exception as e:  # noqa
+            real_check = ["error", type(e).__name__]
+        ctxl = [[[i], coder.seq(th)] for i, th in enumerate(ths)]
+        # dedupe the table (first entry wins in the model, entries are functional anyway)
+        seen, tbl = set(), []
+        for e in table:
+            k = sexp.dumps(e[:3])
+            if k not in seen:
+                seen.add(k)
+                tbl.append(e)
+        self.lines.append(sexp.dumps(["export", [n], wire]))
+        self.lines.append(sexp.dumps(["roundtrip", [n], ctxl, tbl, wire]))
+        self.expect.append((name, real_items, real_check, len(table)))
+
+    def id_cases(self):
+        rng = self.rng
+        out = [((), ()), ((0,), ()), ((), (0,)), ((1,), (0,)), ((1,), (1,)), ((2, 0), (1,)), ((2, 0), (2,)), ((2, 3), (2, 1)),
+               ((2, 3), (2, 1, 0)), ((2, 3, 1), (2, 1)), ((2, 3, 1), (1, 7)), ((0, 0), (0,))]
+        for _ in range(self.ctx.scale(300, 3000)):
+            a = tuple(rng.randint(0, 3) for _ in range(rng.randint(0, 4)))
+            if rng.random() < 0.6 and a:
+                k = rng.randint(1, len(a))
+                b = a[:k - 1] + (rng.randint(0, 3),) + tuple(rng.randint(0, 3) for _ in range(rng.randint(0, 1)))
+            else:
+                b = tuple(rng.randint(0, 3) for _ in range(rng.randint(0, 4)))
+            out.append((a, b))
+        return out
+
+    def finish(self):
+        from harness.common import sexp
+        ctx = self.ctx
+        ItemID = self.impl.proof.ItemID
+        ids = self.id_cases()
+        id_lines = [sexp.dumps(["depends", list(a), list(b)]) for a, b in ids]
+        out = ctx.lean_driver(EXE, self.lines + id_lines)
+        if out is None or len(out) != len(self.lines) + len(id_lines):
+            ctx.broken("correspondence:c04:driver", "model driver unavailable or wrong number of answers")
+            return
+        ndis = 0
+        shared = 0
+        for k, (name, real_items, real_check, nnodes) in enumerate(self.expect):
+            m_exp = sexp.loads(out[2 * k])
+            m_rt = sexp.loads(out[2 * k + 1])
+            want = ["ok", [[[str(x) for x in it[0]], it[1], str(it[2]), [[str(x) for x in p] for p in it[3]],
+                            [[str(h) for h in it[4][0]], str(it[4][1])]] for it in real_items]]
+            ctx.count("export-tie:cases")
+            if len(real_items) < nnodes:
+                shared += 1
+            if m_exp != want:
+                ndis += 1
+                if ndis <= 3:
+                    ctx.broken("correspondence:c04:export", "macro %s: model %s vs real %s" % (name, str(m_exp)[:300], str(want)[:300]))
+                    ctx.coverage["disagreements_checked"] += 1
+                continue
+            if real_check[0] == "ok":
+                want_rt = ["ok", [[str(h) for h in real_check[1][0]], str(real_check[1][1])], str(real_check[2])]
+            else:
+                want_rt = None
+            if (want_rt is None) != (m_rt[0] != "ok") or (want_rt is not None and m_rt != want_rt):
+                ndis += 1
+                if ndis <= 3:
+                    ctx.broken("correspondence:c04:check", "macro %s: model %s vs real checker %s" % (name, str(m_rt)[:200], real_check))
+                    ctx.coverage["disagreements_checked"] += 1
+        for (a, b), line in zip(ids, out[len(self.lines):]):
+            ctx.count("export-tie:can_depend_on")
+            try:
+                real = bool(ItemID(a).can_depend_on(ItemID(b)))
+            except IndexError:
+                real = False               # other = (): Python raises IndexError; the model answers false
+            if (line == "T") != real:
+                ctx.broken("correspondence:c04:can_depend_on", "%s depends on %s: model %s real %s" % (a, b, line, real))
+                break
+        ctx.coverage["export_tie"] = {"proof_terms": len(self.expect), "with_shared_sequents": shared,
+                                      "skipped_too_big": self.skipped_big, "can_depend_on_pairs": len(ids)}
+        ctx.log("export tie: %d proof terms (%d with shared sequents), %d id pairs, %d disagreements" % (len(self.expect), shared, len(ids), ndis))
+
+
 # ------------------------------------------------------------------ the oracle stream
 GOOD = ("agree", "no-expansion", "no-evaluation")
 
@@ -758,6 +921,7 @@ class Oracle:
         self.scope = {d["name"]: d["scope"] for d in (table or [])}
         self.t_judge = 0.0
         self.nshrunk = {}
+        self.tie = None
         # macros without any expansion code (default get_proof_term raises NotImplementedError) and z3 (its
         # `expand` raises NotImplementedError): nothing to compare, their eval is not even run (z3 is slow)
         rt = impl.runtime_table()
@@ -800,6 +964,8 @@ class Oracle:
         v = r["verdict"]
         if v == "agree":
             st["agree"] += 1
+            if self.tie is not None:
+                self.tie.maybe_add(name, args, ths)
         self.ctx.case((name, hash(k) if not isinstance(k[1], str) else k), nontrivial=(r["expand"] == "ok"))
         self.ctx.count("%s:%s" % (src, v.split(":")[0]))
         if v not in GOOD and v != "timeout":
@@ -1057,6 +1223,7 @@ def run(ctx):
             ctx.broken("correspondence:c04:registry", "; ".join(bad[:8]))
         ctx.coverage["registry"] = {"ast": len(tb), "runtime": len(rt)}
     oracle = Oracle(ctx, impl, table)
+    oracle.tie = ExportTie(ctx, impl, ctx.scale(400, 4000))
     mut = Mutator(ctx.rng("mutate"))
     # corpus first
     run_corpus(ctx, impl, oracle)
@@ -1064,7 +1231,7 @@ def run(ctx):
     impl.basic.load_metadata()
     if ctx.tier == "quick":
         thys = QUICK_THEORIES
-        budget, rate = 60, 0.25
+        budget, rate = 60, 0.5
     else:
         allthys = sorted(impl.basic.theory_cache["master"].keys())
         thys = library_order(impl, allthys)
@@ -1083,6 +1250,7 @@ def run(ctx):
     # (c) generators
     run_generators(ctx, impl, oracle, mut)
     oracle.report()
+    oracle.tie.finish()
     # evidence
     per = {}
     for name in sorted(set(rt) | set(oracle.stats)):
